@@ -71,7 +71,7 @@ def streams(ctx):
                 after[(op, mode)] = gen_cache.canon(impl[b - 1])
         for (a, b, op, mode, n) in groups:
             if op[0] == "open-fresh":
-                bad = [o for o in impl[a:b] if o.startswith("E:") or "reopen-E" in o or o in ("PANIC", "ABORT")]
+                bad = [o for o in impl[a:b] if o.startswith("E:") or "reopen-E" in o or o.startswith(("PANIC", "ABORT"))]
                 if bad:
                     der.append({"req": vlib.line("latest.same", "1.0.0", "1.0.0"), "index": a + 1,
                                 "check": (lambda o, bad=bad, n=n, mode=mode: ("violation", f"after a {mode} at statement point {n} of schema creation the database does not work: {bad[:3]}")),
